@@ -305,6 +305,76 @@ class Dom:
             self.bind(t, None, v, env)
 
 
+def discover_spec(P, q):
+    """Specs whose map / table names are locals are rebuilt from the
+    defining expressions, so that renaming a local changes nothing."""
+    f = P.func(q)
+    fn = f.node
+    sp = SPECS[q]
+    if q == 'dd.dddmp.load':
+        table = roots = None
+        for n in au.walk_no_defs(fn):
+            if isinstance(n, ast.Assign) and isinstance(
+                    n.targets[0], ast.Tuple) and isinstance(
+                        n.value, ast.Call) and au.call_name(
+                            n.value) == 'parse' and len(
+                                n.targets[0].elts) == 4:
+                e = n.targets[0].elts
+                table, roots = au.src(e[0]), au.src(e[3])
+        umap = [nm for nm in au.names_defined_by(fn, lambda v: isinstance(
+            v, ast.Dict) and len(v.keys) >= 1 and all(
+                au.const_int(k) in (1, -1) for k in v.keys))]
+        # the level map: `i = M[k]` with k the level of the file's triple
+        lmap = None
+        for lp in au.walk_no_defs(fn):
+            if isinstance(lp, ast.For) and isinstance(
+                    lp.target, ast.Tuple) and len(
+                        lp.target.elts) == 2 and isinstance(
+                            lp.target.elts[1], ast.Tuple):
+                k = lp.target.elts[1].elts[0]
+                for n in au.walk_no_defs(lp):
+                    if isinstance(n, ast.Assign) and isinstance(
+                            n.value, ast.Subscript) and isinstance(
+                                n.value.value, ast.Name) and au.src(
+                                    n.value.slice) == au.src(k):
+                        lmap = n.value.value.id
+        if not (table and roots and umap and lmap):
+            raise AnalysisError(
+                'dd.dddmp.load: the parse() unpacking, the node map or '
+                'the level map was not recognised')
+        return Spec(
+            maps={umap[0]: (FILE, TGT), lmap: (SLEV, TLEV)},
+            target=sp.target,
+            unpack={'parse': (FILE, None, None, FILE)},
+            loops={f'{table}.items()': (FILE, (SLEV, FILE, FILE))})
+    if q == 'dd.bdd.BDD.reduction':
+        umap = [nm for nm in au.names_defined_by(fn, lambda v: isinstance(
+            v, ast.Dict) and len(v.keys) == 1 and au.const_int(
+                v.keys[0]) == 1)]
+        lv = [nm for nm in au.names_defined_by(fn, lambda v: isinstance(
+            v, ast.Call) and au.call_name(v) == 'levels')]
+        tgt = [nm for nm in au.names_defined_by(fn, lambda v: isinstance(
+            v, ast.Call) and au.call_name(v) == 'BDD')]
+        if not (umap and tgt):
+            raise AnalysisError('dd.bdd.BDD.reduction: node map / copy '
+                                'manager not recognised')
+        loops = {'self.roots': (SRC,), 'self.levels': (
+            SRC, SLEV, SRC, SRC)}
+        for nm in lv:
+            loops[nm] = (SRC, SLEV, SRC, SRC)
+        return Spec(maps={umap[0]: (SRC, TGT)}, target={tgt[0]},
+                    loops=loops)
+    if q == 'dd.bdd.BDD.load.map_node':
+        subs = [n.value.id for n in au.walk_no_defs(fn)
+                if isinstance(n, ast.Subscript) and isinstance(
+                    n.value, ast.Name)]
+        if not subs:
+            raise AnalysisError('dd.bdd.BDD.load.map_node: no map lookup')
+        return Spec(params=sp.params, maps={subs[0]: (FILE, TGT)},
+                    returns=TGT)
+    return sp
+
+
 def r_domain(P, R):
     by_prop = {
         'C16': ['dd.dddmp.load'],
@@ -317,7 +387,7 @@ def r_domain(P, R):
     total = 0
     for q in by_prop.get(R.prop, []):
         f = P.func(q)
-        d = Dom(R, f, SPECS[q])
+        d = Dom(R, f, discover_spec(P, q))
         d.run()
         total += d.sinks
         if not d.reported:
@@ -425,61 +495,102 @@ def terminal_roots(P, R):
         seen_guard = False
         for it in path:
             if it[0] == 'test':
-                t = au.src(it[1]).replace(' ', '')
-                if t in (f'abs({u})==1', f'{u}in(1,-1)', f'{u}in(-1,1)',
-                         f'abs({u})notinumap'):
-                    seen_guard = True
+                t = it[1]
+                if isinstance(t, ast.Compare) and len(t.ops) == 1:
+                    l = au.src(t.left).replace(' ', '')
+                    r = au.src(t.comparators[0]).replace(' ', '')
+                    if (l == f'abs({u})' and r == '1' and isinstance(
+                            t.ops[0], ast.Eq)) or (
+                                l == u and r in ('(1,-1)', '(-1,1)')):
+                        seen_guard = True
             if it[0] == 'stmt' and any(
-                    isinstance(n, ast.Subscript) and au.is_name(
-                        n.value, 'umap') for n in ast.walk(it[1])):
+                    isinstance(n, ast.Subscript) and isinstance(
+                        n.value, ast.Name) for n in ast.walk(it[1])):
                 if seen_guard:
                     guarded = True
     lp = P.func('dd.bdd.BDD._load_pickle')
+    # the node map: the dictionary handed to _load as its memo
+    ld = P.func('dd.bdd.BDD._load')
+    lparams = [x for x in ld.params if x != 'self']
+    mname = None
+    for c in au.calls_in(lp.node, '_load'):
+        bound = dict(zip(lparams, c.args))
+        a = bound.get('umap')
+        if isinstance(a, ast.Name):
+            mname = a.id
     seeded = False
-    for n in au.walk_no_defs(lp.node):
-        if isinstance(n, ast.Assign) and au.is_name(
-                n.targets[0], 'umap'):
+    if mname:
+        for n in au.assignments_to(lp.node, mname):
             v = n.value
             if isinstance(v, ast.Dict) and any(
                     au.const_int(k) == 1 for k in v.keys if k is not None):
                 seeded = True
-            if isinstance(v, ast.Call) and au.call_name(v) == 'dict' and \
-                    v.args:
-                seeded = True
-    if guarded or seeded:
+    if mname is None:
+        R.undecided('R-DOMAIN', f.qualname, 'node map of the pickle '
+                    'loader', 'not recognised')
+    elif guarded or seeded:
         R.holds('R-DOMAIN', f.qualname, 'a constant root is translated '
                 '(the node map covers the terminal)')
     else:
         R.violation(
             'R-DOMAIN', 'terminal-unmapped', f.qualname, 'umap',
-            'the roots of a pickle are translated by `umap[abs(u)]`, but '
-            'the map is created empty and _load never records the '
-            'terminal: a dump whose roots include TRUE or FALSE cannot be '
-            'loaded (KeyError: 1)', unit=f.unit.rel, line=f.lineno)
+            'the roots of a pickle are translated by a lookup in the node '
+            'map, but the map is created without the terminal and _load '
+            'never records it: a dump whose roots include TRUE or FALSE '
+            'cannot be loaded (KeyError: 1)', unit=f.unit.rel,
+            line=f.lineno)
 
 
 def pickle_level_map(P, R):
     """_load_pickle: level_map[file level] = level returned by add_var."""
     f = P.func('dd.bdd.BDD._load_pickle')
+    ld = P.func('dd.bdd.BDD._load')
+    lparams = [x for x in ld.params if x != 'self']
+    mname = None
+    for c in au.calls_in(f.node, '_load'):
+        a = dict(zip(lparams, c.args)).get('level_map')
+        if isinstance(a, ast.Name):
+            mname = a.id
+    if mname is None:
+        R.undecided('R-DOMAIN', f.qualname, 'level map', 'not recognised')
+        return
     stores = [s for s in au.walk_no_defs(f.node)
               if isinstance(s, ast.Assign) and isinstance(
                   s.targets[0], ast.Subscript) and au.is_name(
-                      s.targets[0].value, 'level_map')]
-    ok = len(stores) == 1 and au.src(stores[0]).replace(
-        ' ', '') == 'level_map[i]=j'
-    js = [s for s in au.walk_no_defs(f.node) if isinstance(s, ast.Assign)
-          and au.is_name(s.targets[0], 'j')]
-    ok = ok and js and all(
-        isinstance(s.value, ast.Call) and au.call_name(s.value) == 'add_var'
-        for s in js)
+                      s.targets[0].value, mname)]
+    ok = None
+    if len(stores) == 1 and isinstance(stores[0].value, ast.Name):
+        key = au.src(stores[0].targets[0].slice)
+        val = stores[0].value.id
+        # the key is the level stored in the file for the variable, the
+        # value the level add_var returned for the same variable
+        loop = None
+        for lp in au.walk_no_defs(f.node):
+            if isinstance(lp, ast.For) and stores[0] in list(
+                    ast.walk(lp)):
+                loop = lp
+        defs = au.assignments_to(f.node, val)
+        from_add = bool(defs) and all(
+            isinstance(d.value, ast.Call) and au.call_name(
+                d.value) == 'add_var' for d in defs)
+        key_is_file_level = loop is not None and isinstance(
+            loop.target, ast.Tuple) and len(
+                loop.target.elts) == 2 and au.src(
+                    loop.target.elts[1]) == key
+        same_var = from_add and loop is not None and all(
+            d.value.args and au.src(d.value.args[0]) == au.src(
+                loop.target.elts[0]) for d in defs)
+        ok = from_add and key_is_file_level and same_var
     if ok:
-        R.holds('R-DOMAIN', f.qualname, 'level_map: file level -> level '
+        R.holds('R-DOMAIN', f.qualname, 'level map: file level -> level '
                 'of the same variable in this manager')
-    else:
+    elif ok is False:
         R.violation('R-DOMAIN', 'level-map', f.qualname, 'level_map',
                     'the pickle level map is no longer file level -> '
                     'level of the same-named variable', unit=f.unit.rel,
                     line=f.lineno)
+    else:
+        R.undecided('R-DOMAIN', f.qualname, 'level map', 'unrecognised')
 
 
 # ---------------------------------------------------------------- R-REBUILD
